@@ -530,63 +530,93 @@ theorem sndDestroySlots_hk (w : World) (p : Pid) (l : List (Option Pid)) :
       have : SlotsSame p w (detachSender w p t) := by simp [SlotsSame]
       exact this.trans s2
 
-/-! ### receiver side -/
-
 theorem Hk.panic {me : Pid} (w : World) : Hk me w { w with panicked := true } :=
   ⟨rfl, rfl, rfl, rfl, rfl, fun _ _ => rfl, fun _ _ => rfl, rfl, rfl, ConnsLe.of_eq fun _ _ => rfl⟩
 
-theorem rcvDropConn_hk (w : World) (me : Pid) (key : Nat) : Hk me w (rcvDropConn w me key) := by
+/-! ### receiver side -/
+
+/-- housekeeping by the receiver of port `me`: additionally no `Snd` record changes -/
+structure HkR (me : Pid) (w w' : World) : Prop extends Hk me w w' where
+  sndsAll : w'.snds = w.snds
+
+theorem HkR.refl (me : Pid) (w : World) : HkR me w w := ⟨Hk.refl _ _, rfl⟩
+theorem HkR.trans {me : Pid} {a b c : World} (h1 : HkR me a b) (h2 : HkR me b c) : HkR me a c :=
+  ⟨h1.toHk.trans h2.toHk, h2.sndsAll.trans h1.sndsAll⟩
+theorem HkR.getSnd_eq {me : Pid} {w w' : World} (h : HkR me w w') (p : Pid) : getSnd w' p = getSnd w p := by
+  unfold getSnd; rw [h.sndsAll]
+theorem HkR.slotsSame {me : Pid} {w w' : World} (h : HkR me w w') (p : Pid) : SlotsSame p w w' := by
+  unfold SlotsSame; rw [h.getSnd_eq]
+theorem HkR.panic {me : Pid} (w : World) : HkR me w { w with panicked := true } := ⟨Hk.panic w, rfl⟩
+theorem HkR.setRcv {me : Pid} {w : World} {R R' : Rcv} (h : getRcv w me = some R) (hi : R'.init = R.init) :
+    HkR me w (ReqRes.setRcv w me R') := ⟨Hk.setRcv h hi, rfl⟩
+theorem HkR.setRcv_then {me : Pid} {w w2 : World} {R R' : Rcv} (h : getRcv w me = some R) (hi : R'.init = R.init)
+    (h2 : HkR me (ReqRes.setRcv w me R') w2) : HkR me w w2 := (HkR.setRcv h hi).trans h2
+theorem HkR.setConn_le {me : Pid} {w : World} {f t : Pid} {c c' : Conn} (h : getConn w f t = some c)
+    (hl : ConnLe c' c) : HkR me w (setConn w f t c') := ⟨Hk.setConn_le h hl, rfl⟩
+theorem HkR.setConn_fresh {me : Pid} {w : World} {f t : Pid} {c' : Conn} (hf : Fresh f c') :
+    HkR me w (setConn w f t c') := ⟨Hk.setConn_fresh hf, rfl⟩
+theorem HkR.detachReceiver {me : Pid} (w : World) (f t : Pid) : HkR me w (ReqRes.detachReceiver w f t) := by
+  refine ⟨Hk.detachReceiver w f t, ?_⟩
+  unfold ReqRes.detachReceiver; split
+  · rfl
+  · split <;> rfl
+theorem HkR.rcvInit_keep {me : Pid} {w w' : World} (h : HkR me w w') (st : ChState)
+    (hinit : ∀ R, getRcv w me = some R → R.init = st) : ∀ R, getRcv w' me = some R → R.init = st :=
+  h.toHk.rcvInit_keep st hinit
+
+
+theorem rcvDropConn_hk (w : World) (me : Pid) (key : Nat) : HkR me w (rcvDropConn w me key) := by
   unfold rcvDropConn
   split
-  · exact Hk.refl _ _
+  · exact HkR.refl _ _
   · next R hR =>
     split
-    · exact Hk.refl _ _
-    · exact Hk.setRcv_then hR (by rfl) (Hk.detachReceiver _ _ _)
+    · exact HkR.refl _ _
+    · exact HkR.setRcv_then hR (by rfl) (HkR.detachReceiver _ _ _)
 
 theorem rcvMakeRoom_hk (w : World) (me : Pid) (R : Rcv) (hR : getRcv w me = some R) (hb : Bool) :
-    Hk me w (rcvMakeRoom w me R hb) := by
+    HkR me w (rcvMakeRoom w me R hb) := by
   unfold rcvMakeRoom
   split
-  · exact Hk.setRcv_then hR (by rfl) (rcvDropConn_hk _ _ _)
+  · exact HkR.setRcv_then hR (by rfl) (rcvDropConn_hk _ _ _)
   · split
     · split
-      · exact Hk.setRcv_then hR (by rfl) (rcvDropConn_hk _ _ _)
-      · exact Hk.refl _ _
-    · exact Hk.refl _ _
+      · exact HkR.setRcv_then hR (by rfl) (rcvDropConn_hk _ _ _)
+      · exact HkR.refl _ _
+    · exact HkR.refl _ _
 
-theorem rcvPushTbr_hk (w : World) (me : Pid) (key : Nat) (hb : Bool) : Hk me w (rcvPushTbr w me key hb) := by
+theorem rcvPushTbr_hk (w : World) (me : Pid) (key : Nat) (hb : Bool) : HkR me w (rcvPushTbr w me key hb) := by
   unfold rcvPushTbr
   split
-  · exact Hk.refl _ _
+  · exact HkR.refl _ _
   · next R hR =>
     split
-    · exact Hk.setRcv hR (by rfl)
+    · exact HkR.setRcv hR (by rfl)
     · split
-      · exact Hk.panic _
+      · exact HkR.panic _
       · exact rcvDropConn_hk _ _ _
 
-theorem rcvPrepareRemoval_hk (w : World) (me : Pid) (slot : Nat) : Hk me w (rcvPrepareRemoval w me slot) := by
+theorem rcvPrepareRemoval_hk (w : World) (me : Pid) (slot : Nat) : HkR me w (rcvPrepareRemoval w me slot) := by
   unfold rcvPrepareRemoval
   split
-  · exact Hk.refl _ _
+  · exact HkR.refl _ _
   · next R hR =>
     split
-    · exact Hk.refl _ _
+    · exact HkR.refl _ _
     · split
-      · exact Hk.refl _ _
+      · exact HkR.refl _ _
       · split
         · split
-          · exact Hk.setRcv hR (by rfl)
+          · exact HkR.setRcv hR (by rfl)
           · exact (rcvMakeRoom_hk w me R hR _).trans (rcvPushTbr_hk _ _ _ _)
         · exact rcvDropConn_hk _ _ _
 
 theorem rcvAttach_hk (w : World) (me f : Pid) (n : Nat) (R : Rcv) (hinit : R.init = initState f) :
-    Hk me w (rcvAttach w me f n R) := by
+    HkR me w (rcvAttach w me f n R) := by
   unfold rcvAttach
   split
-  · next c hc => exact Hk.setConn_le hc (ConnLe.refl _)
-  · exact Hk.setConn_fresh (newConn_fresh f _ _ _ _ _ _ hinit _ _)
+  · next c hc => exact HkR.setConn_le hc (ConnLe.refl _)
+  · exact HkR.setConn_fresh (newConn_fresh f _ _ _ _ _ _ hinit _ _)
 
 @[simp] theorem getRcv_rcvAttach (w : World) (me f p : Pid) (n : Nat) (R : Rcv) :
     getRcv (rcvAttach w me f n R) p = getRcv w p := by
@@ -598,49 +628,49 @@ theorem rcvAttach_hk (w : World) (me f : Pid) (n : Nat) (R : Rcv) (hinit : R.ini
 /-- `Receiver::create`: the static hypothesis says the receiver's initial channel state is the one
 of the sender's kind -/
 theorem rcvCreateConn_hk (w : World) (me : Pid) (slot : Nat) (f : Pid) (n : Nat)
-    (hinit : ∀ R, getRcv w me = some R → R.init = initState f) : Hk me w (rcvCreateConn w me slot f n) := by
+    (hinit : ∀ R, getRcv w me = some R → R.init = initState f) : HkR me w (rcvCreateConn w me slot f n) := by
   unfold rcvCreateConn
   split
-  · exact Hk.refl _ _
+  · exact HkR.refl _ _
   · next R hR =>
     have h0 := rcvAttach_hk w me f n R (hinit R hR)
     have hR' : getRcv (rcvAttach w me f n R) me = some R := by simpa using hR
     simp only []
     split
-    · exact h0.trans (Hk.setRcv hR' (by rfl))
-    · exact h0.trans (Hk.panic _)
+    · exact h0.trans (HkR.setRcv hR' (by rfl))
+    · exact h0.trans (HkR.panic _)
 
 theorem rcvUpdateConn_hk (w : World) (me : Pid) (slot : Nat) (f : Pid) (n : Nat)
-    (hinit : ∀ R, getRcv w me = some R → R.init = initState f) : Hk me w (rcvUpdateConn w me slot f n).1 := by
+    (hinit : ∀ R, getRcv w me = some R → R.init = initState f) : HkR me w (rcvUpdateConn w me slot f n).1 := by
   unfold rcvUpdateConn
   split
-  · exact Hk.refl _ _
+  · exact HkR.refl _ _
   · split
-    · exact Hk.refl _ _
+    · exact HkR.refl _ _
     · have h1 := rcvPrepareRemoval_hk w me slot
       exact h1.trans (rcvCreateConn_hk _ me slot f n (h1.rcvInit_keep _ hinit))
 
 theorem rcvFinish_hk (w : World) (me : Pid) (tagged : List Nat) (fuel n : Nat) :
-    Hk me w (rcvFinish w me tagged fuel n) := by
+    HkR me w (rcvFinish w me tagged fuel n) := by
   induction fuel generalizing w n with
-  | zero => exact Hk.refl _ _
+  | zero => exact HkR.refl _ _
   | succ fuel ih =>
     simp only [rcvFinish]
     split
-    · exact Hk.refl _ _
+    · exact HkR.refl _ _
     · next R hR =>
       split
-      · exact Hk.refl _ _
-      · refine Hk.trans ?_ (ih _ _)
+      · exact HkR.refl _ _
+      · refine HkR.trans ?_ (ih _ _)
         split
-        · exact Hk.refl _ _
+        · exact HkR.refl _ _
         · split
           · have h1 := rcvPrepareRemoval_hk w me n
             refine h1.trans ?_
             split
-            · next R' hR' => exact Hk.setRcv hR' (by rfl)
-            · exact Hk.refl _ _
-          · exact Hk.refl _ _
+            · next R' hR' => exact HkR.setRcv hR' (by rfl)
+            · exact HkR.refl _ _
+          · exact HkR.refl _ _
 
 /-- element `e` was taken from the front of channel `ch` of connection `(f, me)` (possibly after
 other elements were taken from it) -/
@@ -684,29 +714,29 @@ theorem ConnLe.setChan {c : Conn} {ch : Nat} {x x' : Chan} (hx : c.chans[ch]? = 
     exact ⟨y, hy, ChanLe.refl _⟩
 
 theorem recvFromConn_spec (w : World) (me : Pid) (R : Rcv) (key ch : Nat) :
-    Hk me w (recvFromConn w me R key ch).1 ∧
+    HkR me w (recvFromConn w me R key ch).1 ∧
     ∀ h m, (recvFromConn w me R key ch).2 = .some h m →
       smGet R.storage key = some h.origin ∧ h.channel = ch ∧ h.key = key ∧
       Popped w (recvFromConn w me R key ch).1 h.origin me ch ⟨h.chunk, m⟩ := by
   unfold recvFromConn
   split
-  · exact ⟨Hk.refl _ _, fun _ _ h => by cases h⟩
+  · exact ⟨HkR.refl _ _, fun _ _ h => by cases h⟩
   · next f hf =>
     split
-    · exact ⟨Hk.refl _ _, fun _ _ h => by cases h⟩
+    · exact ⟨HkR.refl _ _, fun _ _ h => by cases h⟩
     · next c hc =>
       unfold Conn.chan
       split
-      · exact ⟨Hk.refl _ _, fun _ _ h => by cases h⟩
+      · exact ⟨HkR.refl _ _, fun _ _ h => by cases h⟩
       · next x hx =>
         split
-        · exact ⟨Hk.refl _ _, fun _ _ h => by cases h⟩
+        · exact ⟨HkR.refl _ _, fun _ _ h => by cases h⟩
         · split
-          · exact ⟨Hk.refl _ _, fun _ _ h => by cases h⟩
+          · exact ⟨HkR.refl _ _, fun _ _ h => by cases h⟩
           · next e rest hsub =>
             have hle : ChanLe { x with sub := rest, borrow := x.borrow + 1 } x :=
               ⟨rfl, by rw [hsub]; exact List.suffix_cons _ _⟩
-            refine ⟨Hk.setConn_le hc (ConnLe.setChan hx hle), ?_⟩
+            refine ⟨HkR.setConn_le hc (ConnLe.setChan hx hle), ?_⟩
             intro h m hm
             simp only [RecvRes.some.injEq] at hm
             obtain ⟨rfl, rfl⟩ := hm
@@ -718,15 +748,15 @@ theorem recvFromConn_spec (w : World) (me : Pid) (R : Rcv) (key ch : Nat) :
 /-- result of a receive call: housekeeping, and a returned element was taken from the front of
 channel `ch` of the connection it names -/
 def RecvSpec (me : Pid) (ch : Nat) (w : World) (r : World × RecvRes) : Prop :=
-  Hk me w r.1 ∧ ∀ h m, r.2 = .some h m → h.channel = ch ∧ Popped w r.1 h.origin me ch ⟨h.chunk, m⟩
+  HkR me w r.1 ∧ ∀ h m, r.2 = .some h m → h.channel = ch ∧ Popped w r.1 h.origin me ch ⟨h.chunk, m⟩
 
-theorem RecvSpec.of_hk {me : Pid} {ch : Nat} {w w1 : World} {r : World × RecvRes} (h1 : Hk me w w1)
+theorem RecvSpec.of_hk {me : Pid} {ch : Nat} {w w1 : World} {r : World × RecvRes} (h1 : HkR me w w1)
     (h2 : RecvSpec me ch w1 r) : RecvSpec me ch w r :=
-  ⟨h1.trans h2.1, fun h m e => ⟨(h2.2 h m e).1, Popped.of_le h1.conns (h2.2 h m e).2⟩⟩
+  ⟨h1.trans h2.1, fun h m e => ⟨(h2.2 h m e).1, Popped.of_le h1.toHk.conns (h2.2 h m e).2⟩⟩
 
-theorem RecvSpec.none {me : Pid} {ch : Nat} {w w1 : World} (h1 : Hk me w w1) : RecvSpec me ch w (w1, .none) :=
+theorem RecvSpec.none {me : Pid} {ch : Nat} {w w1 : World} (h1 : HkR me w w1) : RecvSpec me ch w (w1, .none) :=
   ⟨h1, fun _ _ e => by cases e⟩
-theorem RecvSpec.maxBorrow {me : Pid} {ch : Nat} {w w1 : World} (h1 : Hk me w w1) : RecvSpec me ch w (w1, .maxBorrow) :=
+theorem RecvSpec.maxBorrow {me : Pid} {ch : Nat} {w w1 : World} (h1 : HkR me w w1) : RecvSpec me ch w (w1, .maxBorrow) :=
   ⟨h1, fun _ _ e => by cases e⟩
 
 theorem recvFromConn_recvSpec (w : World) (me : Pid) (R : Rcv) (key ch : Nat) :
@@ -736,17 +766,17 @@ theorem recvFromConn_recvSpec (w : World) (me : Pid) (R : Rcv) (key ch : Nat) :
 
 theorem recvTbr_spec (w : World) (me : Pid) (ch fuel i : Nat) : RecvSpec me ch w (recvTbr w me ch fuel i) := by
   induction fuel generalizing w i with
-  | zero => exact RecvSpec.none (Hk.refl _ _)
+  | zero => exact RecvSpec.none (HkR.refl _ _)
   | succ fuel ih =>
     simp only [recvTbr]
     split
-    · exact RecvSpec.none (Hk.refl _ _)
+    · exact RecvSpec.none (HkR.refl _ _)
     · next R hR =>
       split
-      · exact RecvSpec.none (Hk.refl _ _)
+      · exact RecvSpec.none (HkR.refl _ _)
       · next key _ =>
         split
-        · exact RecvSpec.of_hk (Hk.setRcv hR (by rfl)) (ih _ _)
+        · exact RecvSpec.of_hk (HkR.setRcv hR (by rfl)) (ih _ _)
         · next f _ =>
           split
           · exact ih _ _
@@ -774,12 +804,12 @@ theorem recvTbr_spec (w : World) (me : Pid) (ch fuel i : Nat) : RecvSpec me ch w
                           · split <;> rfl
                   rw [heq] at h2
                   rw [h2, hR]
-                exact RecvSpec.of_hk hs.1 (RecvSpec.of_hk (Hk.setRcv_then hR' (by rfl) (rcvDropConn_hk _ _ _)) (ih _ _))
+                exact RecvSpec.of_hk hs.1 (RecvSpec.of_hk (HkR.setRcv_then hR' (by rfl) (rcvDropConn_hk _ _ _)) (ih _ _))
 
 theorem recvScan_spec (w : World) (me : Pid) (R : Rcv) (ch : Nat) (l : List (Nat × Pid)) (acc : ScanAcc) :
     RecvSpec me ch w ((recvScan w me R ch l acc).1, (recvScan w me R ch l acc).2.1) := by
   induction l generalizing w acc with
-  | nil => exact RecvSpec.none (Hk.refl _ _)
+  | nil => exact RecvSpec.none (HkR.refl _ _)
   | cons a r ih =>
     obtain ⟨key, f⟩ := a
     simp only [recvScan]
@@ -800,7 +830,7 @@ theorem recvScan_spec (w : World) (me : Pid) (R : Rcv) (ch : Nat) (l : List (Nat
 theorem rcvReceive_spec (w : World) (me : Pid) (ch : Nat) : RecvSpec me ch w (rcvReceive w me ch) := by
   unfold rcvReceive
   split
-  · exact RecvSpec.none (Hk.refl _ _)
+  · exact RecvSpec.none (HkR.refl _ _)
   · next R hR =>
     have h1 := recvTbr_spec w me ch (R.tbr.length + 1) 0
     split
@@ -823,31 +853,31 @@ theorem rcvReceive_spec (w : World) (me : Pid) (ch : Nat) : RecvSpec me ch w (rc
           · exact RecvSpec.maxBorrow (h1.1.trans h2.1)
           · exact RecvSpec.none (h1.1.trans h2.1)
 
-theorem rcvRelease_hk (w : World) (me : Pid) (h : Held) : Hk me w (rcvRelease w me h) := by
+theorem rcvRelease_hk (w : World) (me : Pid) (h : Held) : HkR me w (rcvRelease w me h) := by
   unfold rcvRelease
   split
-  · exact Hk.refl _ _
+  · exact HkR.refl _ _
   · split
-    · exact Hk.refl _ _
+    · exact HkR.refl _ _
     · split
-      · exact Hk.refl _ _
+      · exact HkR.refl _ _
       · split
-        · exact Hk.refl _ _
+        · exact HkR.refl _ _
         · next c hc =>
           unfold Conn.chan
           split
-          · exact Hk.refl _ _
+          · exact HkR.refl _ _
           · next x hx =>
             split
-            · exact Hk.setConn_le hc (ConnLe.setChan hx ⟨rfl, List.suffix_refl _⟩)
-            · exact Hk.refl _ _
+            · exact HkR.setConn_le hc (ConnLe.setChan hx ⟨rfl, List.suffix_refl _⟩)
+            · exact HkR.refl _ _
 
-theorem rcvDestroyKeys_hk (w : World) (me : Pid) (l : List (Nat × Pid)) : Hk me w (rcvDestroyKeys w me l) := by
+theorem rcvDestroyKeys_hk (w : World) (me : Pid) (l : List (Nat × Pid)) : HkR me w (rcvDestroyKeys w me l) := by
   induction l generalizing w with
-  | nil => exact Hk.refl _ _
+  | nil => exact HkR.refl _ _
   | cons a r ih =>
     obtain ⟨k, f⟩ := a
     simp only [rcvDestroyKeys]
-    exact (Hk.detachReceiver w f me).trans (ih _)
+    exact (HkR.detachReceiver w f me).trans (ih _)
 
 end Iox2.ReqRes
